@@ -12,7 +12,6 @@ AndZ  == [mode |-> "and", useG |-> TRUE, G |-> {"z"}, useS |-> TRUE, S |-> "c"] 
 OrB   == [mode |-> "or", useG |-> TRUE, G |-> {"b"}, useS |-> FALSE, S |-> ""]
 ResS  == [mode |-> "and", useG |-> FALSE, G |-> {}, useS |-> TRUE, S |-> "c"]    \* bypass: residual only
 
-Filters == IF Level = 1 THEN {NoF, AndA, AndZ} ELSE {NoF, AndA, AndAS, AndZ, OrB, ResS}
 Ns == {1, 2}
 
 SE(n) == [kind |-> "se", n |-> n, max |-> 0, idx |-> "exp", desc |-> FALSE, f |-> NoF, lo |-> -1, hi |-> -1,
@@ -21,26 +20,42 @@ SM(n, x, f) == [kind |-> "sm", n |-> n, max |-> 0, idx |-> x, desc |-> FALSE, f 
                 newst |-> "", lease |-> 0, cond |-> ""]
 PE(n, f, lease, cond) == [kind |-> "pe", n |-> n, max |-> 0, idx |-> "exp", desc |-> FALSE, f |-> f, lo |-> -1, hi |-> -1,
                           newst |-> "c", lease |-> lease, cond |-> cond]
+Del(k) == [kind |-> "del", k |-> k, e |-> -1, g |-> "", s |-> ""]
+Patch(k, e, g, s) == [kind |-> "patch", k |-> k, e |-> e, g |-> g, s |-> s]
+Put(k, e, g, s) == [kind |-> "put", k |-> k, e |-> e, g |-> g, s |-> s]
 
+\* Level 0: one request of each kind that exercises every step (quick tier)
+\* Level 1: HowMany in {1,2}, filters with and without an indexable leg
+\* Level 2: every filter shape, both indexes, leases, conditions (thorough tier)
 MCClaimReqs ==
-  {SE(n) : n \in Ns}
-  \cup {SM(n, x, f) : n \in Ns, x \in (IF Level = 1 THEN {"key"} ELSE {"key", "exp"}), f \in Filters}
-  \cup {PE(n, f, l, c) : n \in Ns, f \in (IF Level = 1 THEN {NoF, AndA} ELSE Filters \ {OrB}),
-                         l \in (IF Level = 1 THEN {11} ELSE {0, 11}), c \in (IF Level = 1 THEN {""} ELSE {"", "p"})}
+  CASE Level = 0 -> {SE(1), SM(2, "key", AndA), PE(1, NoF, 11, "")}
+    [] Level = 11 -> {SM(2, "key", AndZ)}                   \* witness alphabets, one per deviation
+    [] Level = 12 -> {SM(2, "key", AndA)}
+    [] Level = 13 -> {SE(1), SM(1, "key", NoF)}
+    [] Level = 14 -> {PE(1, NoF, 11, "")}
+    [] Level = 1 -> {SE(n) : n \in Ns} \cup {SM(n, "key", f) : n \in Ns, f \in {NoF, AndA, AndZ}}
+                    \cup {PE(n, f, 11, "") : n \in Ns, f \in {NoF, AndA}}
+    [] OTHER     -> {SE(n) : n \in Ns}
+                    \cup {SM(n, x, f) : n \in Ns, x \in {"key", "exp"}, f \in {NoF, AndA, AndAS, AndZ, OrB, ResS}}
+                    \cup {PE(n, f, l, c) : n \in Ns, f \in {NoF, AndA, AndAS, AndZ, ResS}, l \in {0, 11}, c \in {"", "p"}}
 
 MCIntOps ==
-  {[kind |-> "del", k |-> k, e |-> -1, g |-> "", s |-> ""] : k \in Keys}
-  \cup {[kind |-> "patch", k |-> k, e |-> -1, g |-> "b", s |-> ""] : k \in Keys}      \* moves the record out of grp "a"
-  \cup {[kind |-> "patch", k |-> k, e |-> e, g |-> "", s |-> ""] : k \in Keys, e \in (IF Level = 1 THEN {12} ELSE {0, 12})}
-  \cup (IF Level = 1 THEN {} ELSE {[kind |-> "patch", k |-> k, e |-> -1, g |-> "", s |-> "c"] : k \in Keys})
-  \cup {[kind |-> "put", k |-> 3, e |-> 3, g |-> "a", s |-> "p"]}
+  CASE Level = 0 -> {Del(1), Patch(1, -1, "b", ""), Patch(1, 12, "", "")}
+    [] Level \in {11, 13} -> {}
+    [] Level = 12 -> {Patch(1, -1, "b", "")}
+    [] Level = 14 -> {Del(1)}
+    [] Level = 1 -> {Del(k) : k \in Keys} \cup {Patch(k, -1, "b", "") : k \in Keys} \cup {Patch(k, 12, "", "") : k \in Keys}
+                    \cup {Put(3, 3, "a", "p")}
+    [] OTHER     -> {Del(k) : k \in Keys} \cup {Patch(k, -1, "b", "") : k \in Keys}
+                    \cup {Patch(k, e, "", "") : k \in Keys, e \in {0, 12}}
+                    \cup {Patch(k, -1, "", "c") : k \in Keys} \cup {Put(3, 3, "a", "p")}
 
 R(e, g, s) == [live |-> TRUE, exp |-> e, grp |-> g, st |-> s]
 
 \* initial swamp: two expired records of group "a"; the third is absent, or expired in group "b", or not expired
 MCInit ==
   /\ mode \in {"mem", "disk"}
-  /\ \E r3 \in {Dead, R(3, "b", "p"), R(11, "a", "p")} :
+  /\ \E r3 \in (IF Level = 0 \/ Level > 10 THEN {R(3, "b", "p")} ELSE {Dead, R(3, "b", "p"), R(11, "a", "p")}) :
        /\ rec = [k \in Keys |-> CASE k = 1 -> R(1, "a", "p") [] k = 2 -> R(2, "a", "p") [] OTHER -> r3]
        /\ ix = [k \in Keys |-> CASE k = 1 -> 1 [] k = 2 -> 2 [] OTHER -> r3.exp]
        /\ alive = {k \in Keys : k # 3 \/ r3.live}
@@ -50,7 +65,27 @@ MCInit ==
   /\ todo = [p \in Procs |-> <<>>] /\ out = [p \in Procs |-> <<>>]
   /\ owner = [k \in Keys |-> ""] /\ bad = {} /\ used = {} /\ nops = 0
 
-MCSpec == MCInit /\ [][Next]_vars
+\* a claimer makes one call; the interferer may make another one while calls are left
+MCReturn(p) ==
+  /\ pc[p] = "ret"
+  /\ pc' = [pc EXCEPT ![p] = IF p \in Interferers /\ nops < MaxOps THEN "idle" ELSE "done"]
+  /\ UNCHANGED <<mode, rec, ix, held, lock, req, cand, walk, res, todo, out, owner, alive, bad, used, nops>>
+MCNext == Steps(MCClaimReqs, MCIntOps) \/ \E p \in Procs : MCReturn(p)
+MCSpec == MCInit /\ [][MCNext]_vars
+
+\* Witness schedules must be realisable with the gates the code offers (beacon.select.enter = pc "lock",
+\* beacon.select.exit = end of the walk with the lock held, patchexpired.selected = pc "fin" before the first
+\* patch): everything between two gates runs without interruption, an interferer's call runs to completion.
+\* A process that is waiting for a lock is not busy.
+WalkOver(q) == walk[q] = <<>> \/ Len(res[q]) >= EffN(req[q])
+Busy(q) ==
+  \/ pc[q] = "walk" /\ ~WalkOver(q)
+  \/ pc[q] = "fin" /\ req[q].kind \in {"se", "sm"}
+  \/ pc[q] = "fin" /\ req[q].kind = "pe" /\ todo[q] # res[q] /\ ~(todo[q] = <<>> /\ lock["expA"] # "")
+  \/ pc[q] = "do"
+  \/ pc[q] = "rx" /\ lock["expA"] = "" /\ lock["expD"] = ""
+Moved(q) == pc'[q] # pc[q] \/ walk'[q] # walk[q] \/ todo'[q] # todo[q]
+Coarse == \A q \in Procs : Busy(q) => Moved(q)
 
 \* every process makes at most one call at a time; the total number of calls is bounded
 Bounded == nops <= MaxOps
